@@ -378,3 +378,179 @@ Proof.
     split; [apply (dm_cables _ _ (dv_mono _ _ S3)); apply Hws; exact Hw|]. cbn [lpin]. eexists; eexists. split; [exact N3|reflexivity]. }
   destruct Hin as [Hin|Hin]; eapply G; try exact Hin; eapply wires_from_in; eassumption.
 Qed.
+
+(* ================= the state ================= *)
+Definition iref (s : estate) (cur ii rk : nat) : Prop :=
+  (cur < length (st_defs s))%nat /\ (rk < length (st_defs s))%nat /\
+  exists i, nth_error (ed_insts (get_def cur s)) ii = Some i /\ ei_ref i = RName (ed_name (get_def rk s)).
+
+Definition pend_ok (s : estate) (e : nat * nat * nat * list (option dexpr)) : Prop :=
+  let '(cur, ii, rk, _) := e in iref s cur ii rk.
+
+Record smono (s s' : estate) : Prop := {
+  sm_names : exists extra, names s' = names s ++ extra;
+  sm_defs : forall k, dmono (get_def k s) (get_def k s') }.
+
+Record vstep (s s' : estate) : Prop := {
+  vs_mono : smono s s';
+  vs_conn : forall k p w, In (p, w) (ed_conn (get_def k s')) ->
+              In (p, w) (ed_conn (get_def k s)) \/ (wire_in (get_def k s') w /\ pin_ok s' (get_def k s') p);
+  vs_pend : forall e, In e (st_pending s') -> In e (st_pending s) \/ pend_ok s' e }.
+
+Definition VInv (s : estate) : Prop := Vis s /\ forall e, In e (st_pending s) -> pend_ok s e.
+
+Lemma smono_refl s : smono s s.
+Proof. constructor; [exists []; rewrite app_nil_r; reflexivity|intro k; apply dmono_refl]. Qed.
+
+Lemma smono_trans a b c : smono a b -> smono b c -> smono a c.
+Proof.
+  intros [(e1 & N1) D1] [(e2 & N2) D2]. constructor.
+  - exists (e1 ++ e2). rewrite N2, N1, app_assoc. reflexivity.
+  - intro k. eapply dmono_trans; [apply D1|apply D2].
+Qed.
+
+Lemma smono_length s s' : smono s s' -> (length (st_defs s) <= length (st_defs s'))%nat.
+Proof.
+  intros [(e & N) _]. assert (L : length (names s') = length (names s ++ e)) by (rewrite N; reflexivity).
+  unfold names in L. rewrite app_length, !map_length in L. lia.
+Qed.
+
+Lemma find_idx_names_prefix n : forall (l l' : list edef) extra j, map ed_name l' = map ed_name l ++ extra ->
+  find_idx (fun d => str_eqb (ed_name d) n) l = Some j -> find_idx (fun d => str_eqb (ed_name d) n) l' = Some j.
+Proof.
+  induction l as [|x l IH]; intros l' extra j N F; cbn in F; [discriminate|].
+  destruct l' as [|x' l']; [discriminate|]. cbn in N. injection N as Nx Nl. cbn. rewrite Nx.
+  destruct (str_eqb (ed_name x) n); [exact F|].
+  destruct (find_idx _ l) as [k|] eqn:Fk; [|discriminate]. rewrite (IH l' extra k Nl eq_refl). exact F.
+Qed.
+
+Lemma find_def_mono s s' n j : smono s s' -> find_def n s = Some j -> find_def n s' = Some j.
+Proof. intros [(e & N) _] F. unfold find_def in *. eapply find_idx_names_prefix; [exact N|exact F]. Qed.
+
+Lemma pin_ok_mono s s' k p : smono s s' -> pin_ok s (get_def k s) p -> pin_ok s' (get_def k s') p.
+Proof.
+  intros M. pose proof (sm_defs _ _ M k) as [P _ I]. destruct p as [pk o|ii pk o]; cbn [pin_ok]; [apply P|].
+  intros (i & Hi & Hr). destruct (I ii i Hi) as (i' & Hi' & R). exists i'. split; [exact Hi'|]. rewrite R.
+  destruct (ei_ref i) as [n|w]; [|exact Logic.I]. cbn [ref_ports] in *.
+  destruct (find_def n s) as [j|] eqn:F; [|destruct Hr as (p & Hp & _); destruct pk; discriminate].
+  rewrite (find_def_mono s s' n j M F). apply (dm_ports _ _ (sm_defs _ _ M j)). exact Hr.
+Qed.
+
+Lemma iref_mono s s' cur ii rk : smono s s' -> iref s cur ii rk -> iref s' cur ii rk.
+Proof.
+  intros M (Hc & Hr & i & Hi & R). pose proof (smono_length _ _ M) as L. destruct (sm_names _ _ M) as (e & N).
+  split; [lia|]. split; [lia|]. destruct (dm_insts _ _ (sm_defs _ _ M cur) ii i Hi) as (i' & Hi' & R').
+  exists i'. split; [exact Hi'|]. rewrite R', R. f_equal. symmetry. exact (proj2 (names_prefix_get s s' e rk N Hr)).
+Qed.
+
+Lemma pend_ok_mono s s' e : smono s s' -> pend_ok s e -> pend_ok s' e.
+Proof. destruct e as [[[cur ii] rk] l]. apply iref_mono. Qed.
+
+Lemma vstep_refl s : vstep s s.
+Proof. constructor; [apply smono_refl|auto|auto]. Qed.
+
+Lemma vstep_trans a b c : vstep a b -> vstep b c -> vstep a c.
+Proof.
+  intros [M1 C1 P1] [M2 C2 P2]. constructor; [eapply smono_trans; eassumption| |].
+  - intros k p w H. destruct (C2 k p w H) as [H2|H2]; [|right; exact H2].
+    destruct (C1 k p w H2) as [H1|[H1 H1']]; [left; exact H1|right].
+    split; [apply (dm_cables _ _ (sm_defs _ _ M2 k)); exact H1|eapply pin_ok_mono; eassumption].
+  - intros e H. destruct (P2 e H) as [H2|H2]; [|right; exact H2].
+    destruct (P1 e H2) as [H1|H1]; [left; exact H1|right; eapply pend_ok_mono; eassumption].
+Qed.
+
+Theorem vinv_vstep s s' : VInv s -> vstep s s' -> VInv s'.
+Proof.
+  intros [V P] [M C Pn]. split.
+  - intros k p w H. destruct (C k p w H) as [H0|H0]; [|exact H0]. destruct (V k p w H0) as [Hw Hp].
+    split; [apply (dm_cables _ _ (sm_defs _ _ M k)); exact Hw|eapply pin_ok_mono; eassumption].
+  - intros e H. destruct (Pn e H) as [H0|H0]; [|exact H0]. eapply pend_ok_mono; [exact M|apply P; exact H0].
+Qed.
+
+Lemma fold_res_vstep {A} (f : A -> estate -> result estate) (Q : estate -> Prop) l :
+  (forall x s s', Q s -> f x s = Ok s' -> vstep s s' /\ Q s') ->
+  forall s s', Q s -> fold_res f l s = Ok s' -> vstep s s' /\ Q s'.
+Proof.
+  intros Hf. induction l as [|x l IH]; intros s s' HQ H; cbn in H.
+  - inversion H; subst. split; [apply vstep_refl|exact HQ].
+  - apply bind_ok in H. destruct H as (s1 & H1 & H2). destruct (Hf _ _ _ HQ H1) as [S1 Q1].
+    destruct (IH _ _ Q1 H2) as [S2 Q2]. split; [eapply vstep_trans; eassumption|exact Q2].
+Qed.
+
+(* steps that leave the definitions alone *)
+Lemma vstep_same_defs s s' : st_defs s' = st_defs s -> (forall e, In e (st_pending s') -> In e (st_pending s) \/ pend_ok s' e) -> vstep s s'.
+Proof.
+  intros E Hp. assert (G : forall k, get_def k s' = get_def k s) by (intro k; unfold get_def; rewrite E; reflexivity).
+  constructor; [constructor| |exact Hp].
+  - exists []. unfold names. rewrite E, app_nil_r. reflexivity.
+  - intro k. rewrite G. apply dmono_refl.
+  - intros k p w H. left. rewrite <- G. exact H.
+Qed.
+
+Lemma put_def_out k d s : (length (st_defs s) <= k)%nat -> put_def k d s = s.
+Proof. intro H. unfold put_def, upd_def. rewrite nth_upd_out by exact H. destruct s; reflexivity. Qed.
+
+Lemma upd_def_put k f s : upd_def k f s = put_def k (f (get_def k s)) s.
+Proof.
+  unfold put_def, upd_def. f_equal. apply nth_upd_ext. intros x Hx. unfold get_def. rewrite (nth_default_error _ _ _ _ Hx). reflexivity.
+Qed.
+
+Lemma put_def_vstep k d' s : dstep (get_def k s) d' -> dvstep (get_def k s) d' -> vstep s (put_def k d' s).
+Proof.
+  intros Ds Dv. destruct (le_lt_dec (length (st_defs s)) k) as [Ho|Hk]; [rewrite put_def_out by exact Ho; apply vstep_refl|].
+  assert (N : names (put_def k d' s) = names s) by (apply names_put; apply (ds_name _ _ Ds)).
+  constructor; [constructor| |].
+  - exists []. rewrite app_nil_r. exact N.
+  - intro j. destruct (Nat.eq_dec j k) as [->|Hne]; [rewrite get_put_same by exact Hk; apply (dv_mono _ _ Dv)|].
+    rewrite get_put_other by exact Hne. apply dmono_refl.
+  - intros j p w H. destruct (Nat.eq_dec j k) as [->|Hne].
+    + rewrite get_put_same in * by exact Hk. destruct (dv_conn _ _ Dv p w H) as [H0|[Hw Hp]]; [left; exact H0|right].
+      split; [exact Hw|apply lpin_pin_ok; exact Hp].
+    + rewrite get_put_other in H by exact Hne. left. exact H.
+  - intros e H. left. exact H.
+Qed.
+
+Lemma upd_def_vstep k f s : dstep (get_def k s) (f (get_def k s)) -> dvstep (get_def k s) (f (get_def k s)) -> vstep s (upd_def k f s).
+Proof. rewrite upd_def_put. apply put_def_vstep. Qed.
+
+Lemma lift_vstep cur f s s' : (forall d d', f d = Ok d' -> dstep d d') -> (forall d d', f d = Ok d' -> dvstep d d') ->
+  lift cur f s = Ok s' -> vstep s s'.
+Proof.
+  intros H1 H2 H. unfold lift in H. apply bind_ok in H. destruct H as (d & Hd & H). inversion H; subst.
+  apply put_def_vstep; [eapply H1; exact Hd|eapply H2; exact Hd].
+Qed.
+
+Lemma set_meta_dvstep d lib prim params attrs : dvstep d (set_meta d lib prim params attrs).
+Proof. apply dmono_dvstep; [|reflexivity]. constructor; cbn; eauto. Qed.
+
+Lemma upd_inst_dvstep k f d : (forall i, ei_ref (f i) = ei_ref i) -> dvstep d (set_insts d (nth_upd k f (ed_insts d))).
+Proof.
+  intro Hr. apply dmono_dvstep; [|reflexivity]. constructor; cbn [ed_ports ed_cables ed_insts set_insts]; eauto.
+  intros ii i Hi. destruct (Nat.eq_dec ii k) as [->|Hne].
+  - rewrite (nth_upd_same _ _ _ _ Hi). eauto.
+  - rewrite (nth_upd_other _ _ _ _ Hne). eauto.
+Qed.
+
+Lemma dmono_dummy d : dmono dummy_def d.
+Proof.
+  constructor; cbn.
+  - intros pk o (p & P & _). destruct pk; discriminate.
+  - intros w (c & C & _). cbn in C. destruct (fst w); discriminate.
+  - intros ii i H. destruct ii; discriminate.
+Qed.
+
+Lemma get_blackbox_vstep name s s' k : get_blackbox name s = (s', k) -> vstep s s'.
+Proof.
+  unfold get_blackbox. destruct (find_def name s) as [j|]; intro H; inversion H; subst; [apply vstep_refl|].
+  assert (G : forall j, (j < length (st_defs s))%nat -> get_def j (set_defs s (st_defs s ++ [empty_def name])) = get_def j s).
+  { intros j Hj. unfold get_def. cbn. apply app_nth1. exact Hj. }
+  constructor; [constructor| |].
+  - exists [name]. unfold names. cbn. rewrite map_app. reflexivity.
+  - intro j. destruct (lt_dec j (length (st_defs s))) as [Hj|Hj]; [rewrite G by exact Hj; apply dmono_refl|].
+    unfold get_def at 1. rewrite nth_overflow by lia. apply dmono_dummy.
+  - intros j p w Hin. left. destruct (lt_dec j (length (st_defs s))) as [Hj|Hj]; [rewrite G in Hin by exact Hj; exact Hin|].
+    exfalso. unfold get_def in Hin. cbn in Hin. destruct (Nat.eq_dec j (length (st_defs s))) as [->|Hne].
+    + rewrite app_nth2, Nat.sub_diag in Hin by lia. exact Hin.
+    + rewrite nth_overflow in Hin by (rewrite app_length; cbn; lia). exact Hin.
+  - intros e He. left. exact He.
+Qed.
